@@ -193,6 +193,9 @@ impl TreeSys for Fam {
     fn max_len(&self) -> usize {
         self.max_len
     }
+    fn name(&self) -> String {
+        "order".into()
+    }
     fn visit(&self, w: &[u8], _p: Option<&()>, ctx: &mut Ctx) {
         self.check_word(w, ctx)
     }
